@@ -46,7 +46,8 @@ REQUIRED_THEOREMS = ['Yaql.Props.C13.' + n for n in (
     'dict_iterable_iff dict_iterates_keys dict_not_iterable iterableDicts_only_dicts limitTo_length limitTo_prefix '
     'limitTo_small limitTo_raises_iff limitSized_ok_iff finL_length finV_tuple finV_list finV_scalar finV_plain '
     'finV_set_strict convertInput_frozen hashable_of_frozen convertInput_idem ofInput_raw_list ofInput_raw_dict '
-    'ofInput_converted_list').split()] + ['Yaql.Props.C13Persist.' + n for n in (
+    'ofInput_converted_list finSetErrs_nil finalise_raw rawOut_val rawOut_lazy rawOut_lazy_unlimited groupBy_no_fallback '
+    'groupBy_fallback noSets_methods noSets_function_first noSets_off').split()] + ['Yaql.Props.C13Persist.' + n for n in (
         'operand_unchanged observed_operand_is_pipeline_result observed_update_is_unobserved_update '
         'letTwice_order_irrelevant letPair_parts letTwice_parts letChain_parts finaliseParts_last mapM_rows '
         'selPair_rows').split()]
@@ -782,9 +783,11 @@ def gen_case(rng, fname):
 
 
 def work(args):
-    fname, n_cases, seed, use_model = args
-    rng = common.make_rng(seed, 'C13/' + fname)
-    setup_history(common.make_rng(seed, 'C13/history/' + fname))
+    fname, n_cases, seed, use_model = args[:4]
+    rnd = args[4] if len(args) > 4 else 0          # (thorough: further rounds of the quick size, each with its own stream)
+    salt = fname if rnd == 0 else '%s/round%d' % (fname, rnd)
+    rng = common.make_rng(seed, 'C13/' + salt)
+    setup_history(common.make_rng(seed, 'C13/history/' + salt))
     drv = common.Driver() if use_model else None
     out = dict(fname=fname, cases=[], failures=[], hist={}, n=0, ood=0, errs={}, kinds={}, sizes={}, stages={},
                profiles={}, lams={}, lazy_lambda=[0, 0, 0], dup_nested=0, twins=0, runs=0, by_opts={}, shapes={},
@@ -903,12 +906,25 @@ def run(env, res):
         if f:
             res.fail(f[0], failure_key(ops, info, obs), f[1], replay_of(value, ops, binder, obs, members, ctx))
         return res
-    n_cases = 300 if tier == 'quick' else 3000      # (x 2.25 evaluations per case: ~830 000 evaluations thorough)
-    jobs = [(f, n_cases, env['seed'], use_model) for f in FUNCTIONS]
-    nproc = min(len(jobs), max(1, (os.cpu_count() or 2) - 1), int(os.environ.get('VERIF_NPROC') or (8 if tier == 'quick' else 12)))
+    # quick: one round of 300 cases per function.  thorough: the same round, then further rounds (each with its own random
+    # stream) while the wall-clock budget lasts - sized by time, not by count, so that it ends in <= ~10 min on any machine
+    n_cases = 300
+    max_rounds = 1 if tier == 'quick' else 40
+    budget = float(os.environ.get('VERIF_THOROUGH_S') or 480)
+    nproc = min(len(FUNCTIONS), max(1, (os.cpu_count() or 2) - 1), int(os.environ.get('VERIF_NPROC') or (8 if tier == 'quick' else 12)))
     t0 = time.time()
-    with multiprocessing.Pool(nproc, maxtasksperchild=1) as pool:      # (a fresh process per job: its own create_context history)
-        results = pool.map(work, jobs, chunksize=1)
+    results, rounds_run, stopped = [], 0, False
+    for rnd in range(max_rounds):
+        t1 = time.time()
+        jobs = [(f, n_cases, env['seed'], use_model, rnd) for f in FUNCTIONS]
+        with multiprocessing.Pool(nproc, maxtasksperchild=1) as pool:  # (a fresh process per job: its own create_context history)
+            results += pool.map(work, jobs, chunksize=1)
+        rounds_run += 1
+        if any(out['failures'] for out in results):
+            break
+        if rnd + 1 < max_rounds and (time.time() - t0) + 1.15 * (time.time() - t1) > budget:
+            stopped = True
+            break
     per_fn, errs, kinds, sizes, stages, ood = {}, {}, {}, {}, {}, 0
     profiles, lams, lazy_lambda, dup_nested, twins = {}, {}, [0, 0, 0], 0, 0
     by_opts, shapes, member_kinds, strict_shapes, runs, dict_coll, raw = {}, {}, {}, {}, 0, 0, 0
@@ -921,7 +937,10 @@ def run(env, res):
             res.samples.append(out['sample'])
         for kind, key, what, replay in out['failures']:
             res.fail(kind, key, what, replay)
-        per_fn[out['fname']] = dict(cases=out['n'], out_of_domain=out['ood'], errors=sum(out['errs'].values()))
+        pf = per_fn.setdefault(out['fname'], dict(cases=0, out_of_domain=0, errors=0))
+        pf['cases'] += out['n']
+        pf['out_of_domain'] += out['ood']
+        pf['errors'] += sum(out['errs'].values())
         ood += out['ood']
         for src, dst in ((out['errs'], errs), (out['kinds'], kinds), (out['sizes'], sizes), (out['stages'], stages),
                          (out['lams'], lams), (out['shapes'], shapes), (out.get('member_kinds', {}), member_kinds),
@@ -960,6 +979,8 @@ def run(env, res):
                                   top_level_type_of_real_results=strict_shapes,
                                   cases_by_context_recipe=contexts, cases_with_context_made_on_the_spot=fresh,
                                   jobs_by_first_create_context_call_of_their_process=first_calls)
+    res.extra['rounds_of_300_cases_per_function'] = rounds_run
+    res.extra['stopped_by_wall_clock_budget_s'] = budget if stopped else None
     res.extra['correspondence_wall_s'] = round(time.time() - t0, 1)
     return res
 
